@@ -311,7 +311,9 @@ def dec_got(extra):
     if not extra:
         return None
     n = extra[0]
-    return dec_pdu(extra[1:1 + n]), extra[1 + n]
+    d = dec_pdu(extra[1:1 + n])
+    d["parse_ok"] = extra[2 + n] if len(extra) > 2 + n else 1
+    return d, extra[1 + n]
 
 
 def dec_lcfg(l):
